@@ -285,9 +285,10 @@ def group_pushes(stmts):
 # ---------------------------------------------------------------------------
 # Python lowering
 class PyLower:
-    def __init__(self, fn, rowvar="n"):
+    def __init__(self, fn, rowvar="n", group=True):
         self.fn = fn
         self.rowvar = rowvar
+        self.group = group      # False: keep the individual ('cell', array, row, col, value) stores and the row counter
 
     def expr(self, n):
         if isinstance(n, ast.Constant) and isinstance(n.value, (int, float)) and not isinstance(n.value, bool):
@@ -317,7 +318,7 @@ class PyLower:
         out = []
         for s in stmts:
             out.extend(self.stmt(s))
-        return self.group_rows(out)
+        return self.group_rows(out) if self.group else out
 
     def stmt(self, s):
         if isinstance(s, ast.Expr) and isinstance(s.value, ast.Constant):
